@@ -329,6 +329,7 @@ package shmipc
 //@   ensures  r1 != nil ==> isnil(r0)
 
 //@ func (*Session).extractShmMetadata
+//@   nilable   // the receiver is not used
 //@   modifies nothing
 
 //@ func handleShareMemoryByFilePath
@@ -358,4 +359,13 @@ package shmipc
 
 //@ func getGlobalBufferManagerWithMemFd
 //@   ensures  r1 == nil ==> r0 != nil
+//@   modifies heap
+
+// the closure handleHotRestart posts to the event loop: its precondition is checked where it is created
+//@ func handleHotRestart$1
+//@   requires s != nil && s.manager != nil
+
+//@ func handleSessionManagerHotRestart
+//@   requires sm != nil
+//@   trusted  body runs under defer/recover (not modelled); session-manager logic belongs to C16/C17
 //@   modifies heap
